@@ -170,10 +170,10 @@ CLAIMS = {
  "C17": (
   "difference-bound reasoning over the branch facts of the syntax-level CFG of CleanPath/bufApp (dominating edges with a kill analysis for reassigned variables, short-circuit context, unit propagation through failed "
   "earlier switch cases), a sibling rule on the lazy-buffer test, and a dominance fact on the redirect dispatch in ServeHTTP (SSA)",
-  "Decides three structural parts only, NOT that CleanPath returns the canonical form. (1) A trailing-slash redirect is issued only under path == CleanPath(path) for the path value handed to the matcher (last sentence of "
+  "Decides four structural parts only, NOT that CleanPath returns the canonical form. (1) A trailing-slash redirect is issued only under path == CleanPath(path) for the path value handed to the matcher (last sentence of "
   "the property). (2) The part of 'never panics' that follows from guards alone: every read of the input at the read cursor (p[0], p[n-1], p[r], p[r+1], p[r+2]) and every reslice of the fixed-capacity buffer (buf[:n+1], "
   "(*buf)[:l]) is in range on every path, proved from the comparisons that dominate it. (3) Lazy-buffer discipline: the output so far is read through the write cursor from the input string only while len(buf) == 0 is known "
-  "and from the buffer only once it is known non-empty, and the same test selects the returned value.",
+  "and from the buffer only once it is known non-empty, and the same test selects the returned value. (4) Bytes are examined only by ==/!= comparison with '/' or '.', or with another byte.",
   "NOT decided: equality of the returned string with the lexical definition for any input (rooted, no empty/./.. elements, trailing-slash rule), idempotence, and the range of the accesses indexed by the bare write cursor "
   "(p[w], buf[w], p[:w], buf[:w], s[w], b[w], s[:w]), which needs the loop invariant w <= r and is not derived. Those quantify over all strings through index arithmetic; they need symbolic execution or a proof, a different "
   "technique family. A change of what CleanPath computes that keeps every index guarded and the buffer test consistent is NOT detected by this check.",
